@@ -7,6 +7,9 @@
 //! `(via alt)` builds the same tree through the other public construction paths (`do_many_`,
 //! `do_if_some_`, `Block::new`, `From<Vec<_>>`, the `& | !` operators, `Configuration::from`,
 //! `into_inner`) and runs a clone; `(via opt)` runs it through `Configuration::optimize_with`.
+//! `(rtree …)` cases (c03_real.rs): the SHIPPED conditions (`LessThanN`, `EveryN`, `RandomChance`, composites) as
+//! loop / branch conditions at their boundary parameters, `HoldLeaf`s (work inside `State::holding`) and the real
+//! `Logger` at scope depth 0..3, every state type at every level of the caller's state compared afterwards.
 use std::collections::{HashMap, HashSet};
 use std::sync::{Arc, Mutex};
 
@@ -16,14 +19,18 @@ use eyre::eyre;
 use hcommon::problems::TagProblem;
 use hcommon::*;
 use mahf::components::{Block, Branch, Loop, Scope};
-use mahf::conditions::{And, Not, Or};
+use mahf::conditions::{And, EveryN, LessThanN, Not, Or, RandomChance};
 use mahf::configuration::ConfigurationBuilder;
-use mahf::state::common::Iterations;
+use mahf::state::common::{Evaluations, Iterations};
 use mahf::state::StateReq;
 use mahf::{Component, Condition, Configuration, CustomState, ExecResult, State, StateError, StateRegistry};
 use serde::Serialize;
 
 type P = TagProblem;
+
+/// Cases over shipped conditions and `State::holding` leaves (`(rtree …)` inputs).
+#[path = "../c03_real.rs"]
+mod real;
 
 // ---------------------------------------------------------------- state types (key 0 = Iterations)
 #[derive(Clone, Deref, DerefMut, Tid)]
@@ -89,18 +96,21 @@ fn apply_acts(acts: &[Act], ph: u8, state: &mut State<P>) {
                     0 => { state.insert(Iterations(v as u32)); }
                     1 => { state.insert(K1(v)); }
                     2 => { state.insert(K2(v)); }
+                    4 => { state.insert(Evaluations(v as u32)); }
                     _ => { state.insert(K3(v)); }
                 },
                 Act::Set(p, k, v) if p == ph => match k {
                     0 => { state.set_value::<Iterations>(v as u32); }
                     1 => { state.set_value::<K1>(v); }
                     2 => { state.set_value::<K2>(v); }
+                    4 => { state.set_value::<Evaluations>(v as u32); }
                     _ => { state.set_value::<K3>(v); }
                 },
                 Act::Rem(p, k) if p == ph => match k {
                     0 => { let _ = state.remove::<Iterations>(); }
                     1 => { let _ = state.remove::<K1>(); }
                     2 => { let _ = state.remove::<K2>(); }
+                    4 => { let _ = state.remove::<Evaluations>(); }
                     _ => { let _ = state.remove::<K3>(); }
                 },
                 _ => {}
@@ -122,6 +132,7 @@ impl Component<P> for TraceLeaf {
                     0 => req.require::<Self, Iterations>(),
                     1 => req.require::<Self, K1>(),
                     2 => req.require::<Self, K2>(),
+                    4 => req.require::<Self, Evaluations>(),
                     _ => req.require::<Self, K3>(),
                 };
                 r.map_err(|_| fail(1, self.id))?;
@@ -133,6 +144,62 @@ impl Component<P> for TraceLeaf {
         if self.sh.lock().unwrap().hit(2, self.id).1 { return Err(fail(2, self.id)); }
         apply_acts(&self.acts, 2, state);
         Ok(())
+    }
+}
+
+/// A leaf whose `execute` works on a state of the caller that it takes out of the registry with
+/// `State::holding::<Kk>`: inside the closure it records `(exec, id)`, adds one to the held value, performs
+/// its `exec` actions on the rest of the state and then fails if scripted. `init` / `require` as `TraceLeaf`.
+#[derive(Clone, Serialize)]
+struct HoldLeaf {
+    id: u64,
+    k: u64,
+    #[serde(skip)]
+    acts: Vec<Act>,
+    #[serde(skip)]
+    sh: Sh,
+}
+impl HoldLeaf {
+    fn held<'a, T>(&self, state: &mut State<'a, P>) -> ExecResult<()>
+    where
+        T: CustomState<'a> + TidAble<'a> + std::ops::DerefMut<Target = u64>,
+    {
+        state.holding::<T>(|t, st| {
+            let faulty = self.sh.lock().unwrap().hit(2, self.id).1;
+            **t += 1;
+            apply_acts(&self.acts, 2, st);
+            if faulty { Err(fail(2, self.id)) } else { Ok(()) }
+        })
+    }
+}
+impl Component<P> for HoldLeaf {
+    fn init(&self, _: &P, state: &mut State<P>) -> ExecResult<()> {
+        if self.sh.lock().unwrap().hit(0, self.id).1 { return Err(fail(0, self.id)); }
+        apply_acts(&self.acts, 0, state);
+        Ok(())
+    }
+    fn require(&self, _: &P, req: &StateReq<P>) -> ExecResult<()> {
+        if self.sh.lock().unwrap().hit(1, self.id).1 { return Err(fail(1, self.id)); }
+        for a in &self.acts {
+            if let Act::Need(k) = *a {
+                let r = match k {
+                    0 => req.require::<Self, Iterations>(),
+                    1 => req.require::<Self, K1>(),
+                    2 => req.require::<Self, K2>(),
+                    4 => req.require::<Self, Evaluations>(),
+                    _ => req.require::<Self, K3>(),
+                };
+                r.map_err(|_| fail(1, self.id))?;
+            }
+        }
+        Ok(())
+    }
+    fn execute(&self, _: &P, state: &mut State<P>) -> ExecResult<()> {
+        match self.k {
+            1 => self.held::<K1>(state),
+            2 => self.held::<K2>(state),
+            _ => self.held::<K3>(state),
+        }
     }
 }
 
@@ -251,6 +318,13 @@ fn cond(x: &Sx, sh: &Sh) -> Box<dyn Condition<P>> {
         "and" => And::new(a.iter().map(|c| cond(c, sh)).collect::<Vec<_>>()),
         "or" => Or::new(a.iter().map(|c| cond(c, sh)).collect::<Vec<_>>()),
         "not" => Not::new(cond(&a[0], sh)),
+        // the shipped conditions (cases of c03_real.rs)
+        "lt" => {
+            let n = a[1].nat().unwrap() as u32;
+            if a[0].nat().unwrap() == 0 { LessThanN::iterations(n) } else { LessThanN::evaluations(n) }
+        }
+        "every" => EveryN::iterations(a[0].nat().unwrap() as u32),
+        "chance" => RandomChance::new(if a[0].atom() == Some("t") { 1.0 } else { 0.0 }),
         _ => panic!("bad cond {h}"),
     }
 }
@@ -296,6 +370,11 @@ fn comp(x: &Sx, sh: &Sh) -> Box<dyn Component<P>> {
             }
         }
         "scopew" => hooked_scope(a, sh, false),
+        "hold" => {
+            let acts = a[2..].iter().map(parse_act).collect();
+            Box::new(HoldLeaf { id: a[0].nat().unwrap(), k: a[1].nat().unwrap(), acts, sh: sh.clone() })
+        }
+        "logger" => mahf::logging::Logger::new(),
         _ => panic!("bad node {h}"),
     }
 }
@@ -483,7 +562,32 @@ fn run_case(input: &Sx) -> Ran {
     } else {
         catch(|| config.run(&problem, &mut state))
     };
-    let res = match outcome {
+    let res = classify(outcome);
+    let trace = sh.lock().unwrap().trace.clone();
+    let mut scopes = vec![];
+    let mut cur: Option<&StateRegistry> = Some(&state);
+    while let Some(r) = cur {
+        let mut kv = vec![];
+        if r.contains_at_top::<Iterations>() { kv.push(format!("(0 {})", r.try_get_value::<Iterations>().map(|v| v as i64).unwrap_or(-1))); }
+        if r.contains_at_top::<K1>() { kv.push(format!("(1 {})", r.try_get_value::<K1>().map(|v| v as i64).unwrap_or(-1))); }
+        if r.contains_at_top::<K2>() { kv.push(format!("(2 {})", r.try_get_value::<K2>().map(|v| v as i64).unwrap_or(-1))); }
+        if r.contains_at_top::<K3>() { kv.push(format!("(3 {})", r.try_get_value::<K3>().map(|v| v as i64).unwrap_or(-1))); }
+        scopes.push(list(kv));
+        cur = r.parent();
+    }
+    let out = list([
+        tagged("trace", trace.iter().map(|(p, i)| format!("({} {})", PH[*p as usize], i))),
+        format!("(res {res})"),
+        if lost { "(depth -)".to_string() } else { format!("(depth {})", scopes.len()) },
+        if lost { "(dump -)".to_string() } else { tagged("dump", scopes) },
+        format!("(built {built})"),
+    ]);
+    Ran { out, trace }
+}
+
+/// Result of a run in wire form: which leaf failed in which phase / a `StateError` / something else.
+fn classify(outcome: Option<ExecResult<()>>) -> String {
+    match outcome {
         None => "panic".to_string(),
         Some(Ok(())) => "ok".to_string(),
         Some(Err(e)) => {
@@ -505,27 +609,7 @@ fn run_case(input: &Sx) -> Ran {
                 None => "(err other)".to_string(),
             }
         }
-    };
-    let trace = sh.lock().unwrap().trace.clone();
-    let mut scopes = vec![];
-    let mut cur: Option<&StateRegistry> = Some(&state);
-    while let Some(r) = cur {
-        let mut kv = vec![];
-        if r.contains_at_top::<Iterations>() { kv.push(format!("(0 {})", r.try_get_value::<Iterations>().map(|v| v as i64).unwrap_or(-1))); }
-        if r.contains_at_top::<K1>() { kv.push(format!("(1 {})", r.try_get_value::<K1>().map(|v| v as i64).unwrap_or(-1))); }
-        if r.contains_at_top::<K2>() { kv.push(format!("(2 {})", r.try_get_value::<K2>().map(|v| v as i64).unwrap_or(-1))); }
-        if r.contains_at_top::<K3>() { kv.push(format!("(3 {})", r.try_get_value::<K3>().map(|v| v as i64).unwrap_or(-1))); }
-        scopes.push(list(kv));
-        cur = r.parent();
     }
-    let out = list([
-        tagged("trace", trace.iter().map(|(p, i)| format!("({} {})", PH[*p as usize], i))),
-        format!("(res {res})"),
-        if lost { "(depth -)".to_string() } else { format!("(depth {})", scopes.len()) },
-        if lost { "(dump -)".to_string() } else { tagged("dump", scopes) },
-        format!("(built {built})"),
-    ]);
-    Ran { out, trace }
 }
 
 // ---------------------------------------------------------------- generators
@@ -813,7 +897,11 @@ fn main() {
     if let Some(r) = a.replay {
         let mut out = Out::new();
         let sx = Sx::parse(&r).expect("bad replay input");
-        out.case("replay", &r, &run_case(&sx).out);
+        if real::is_real(&sx) {
+            out.case("replay", &r, &real::run_case_real(&sx).out);
+        } else {
+            out.case("replay", &r, &run_case(&sx).out);
+        }
         out.finish();
         return;
     }
@@ -942,5 +1030,7 @@ fn main() {
         em.with_faults("rand", &tree, &script, &pre_s, &mut rng, if a.thorough { 10 } else { 8 });
         if made % 2 == 0 { em.other_ways("rand", &tree, &script, &pre_s, &mut rng, 3); }
     }
+    // 3. shipped conditions at their boundary parameters and faults inside `State::holding` closures
+    real::generate(&mut em, &mut rng, a.thorough);
     em.out.finish();
 }
